@@ -399,6 +399,33 @@ def run(tier, seed):
         if len(samples) < 4 and c["shape"]["c"] == "alias" and c["dc"] in ("absent", "empty") and "server" in obs:
             samples.append({"shape": vgen.shape_name(c["shape"]), "class": c["dc"], "config": tag, "doc": doc,
                             "reference": list(prop), "server": obs["server"]})
+    # enums over the whole value-name grammar (digit-leading segments, single letters): the wire name is the declared name
+    gdocs = []
+    for i, v in enumerate(vgen.GRAMMAR_VALUES + ["SHA256", "Sha_256", "sha_256", "HTTP_11", "A_B", "TWOWORDS"]):
+        for tag in ("a", "b"):
+            gdocs.append(json.dumps({"id": "g%d.%s" % (i, tag), "cfg": tag, "ty": "Grammar", "doc": json.dumps(v)}))
+            gdocs.append(json.dumps({"id": "h%d.%s" % (i, tag), "cfg": tag, "ty": "ObjGrammar", "doc": json.dumps({"f": v})}))
+    for obs in vc.ndjson(vc.harness("vgen", ["wire"], stdin="\n".join(gdocs) + "\n")):
+        if obs.get("skip") or "server" not in obs:
+            if obs["id"].startswith("h"):
+                continue        # no object wrapper for the enum in this zoo
+            raise vc.ToolError("Grammar enum missing from the zoo: %s" % obs)
+        i, tag = obs["id"][1:].split(".")
+        v = (vgen.GRAMMAR_VALUES + ["SHA256", "Sha_256", "sha_256", "HTTP_11", "A_B", "TWOWORDS"])[int(i)]
+        listed = v in vgen.GRAMMAR_VALUES
+        replayed += 1
+        rep = {"type": "Grammar", "doc": v, "config": tag}
+        wellformed = v.upper() == v
+        for side in ("server", "client"):
+            ok = "ok" in obs[side]
+            want_ok = listed or (tag == "a" and wellformed)
+            if ok != want_ok:
+                out.violation("C02:enum:%s:%s" % ("rejected-valid" if want_ok else "accepted-invalid", "listed" if listed else "unlisted"),
+                              "enum value %r (%s) is %s by the %s deserializer, configuration %s" % (v, "listed" if listed else "unlisted", "accepted" if ok else "rejected", side, tag), rep)
+            elif ok and obs["id"].startswith("g") and obs[side]["ok"] != json.dumps(v):
+                out.violation("C02:enum:renamed", "enum value %r re-serialises as %s" % (v, obs[side]["ok"]), rep)
+            elif ok and listed and "Unknown" in obs[side].get("debug", ""):
+                out.violation("C02:enum:listed-as-unknown", "listed enum value %r is held as %s" % (v, obs[side]["debug"]), rep)
     # unions: {"type": v, v: payload} in either order, exactly two members, type and member agree (shared with C10)
     import props.c10 as c10
     u = c10.union_enum_replay(PID, tier, seed, out, rng)
